@@ -49,8 +49,8 @@ EXHAUSTIVE = True
 EXHAUSTIVE_NOTE = {
     "quick": "all 1085 parameter-list shapes with <=5 parameters x all annotation masks (53,010 annotated cases), 5 def renderings each, "
     "3 lambda renderings per un-annotated shape; overload/property groups and larger signatures are sampled (not exhaustive)",
-    "thorough": "all 5559 parameter-list shapes with <=7 parameters; all annotation masks for <=6 parameters (240,146 cases), 8 seeded masks per shape "
-    "for 7 parameters; 5 def renderings each, 3 lambda renderings per un-annotated shape; groups and larger signatures are sampled (not exhaustive)",
+    "thorough": "all 12171 parameter-list shapes with <=8 parameters; all annotation masks for <=7 parameters (1,039,378 annotated cases), 8 seeded masks "
+    "per shape for 8 parameters; 5 def renderings each, 3 lambda renderings per un-annotated shape; groups and larger signatures are sampled (not exhaustive)",
 }
 BUDGET_S = {"quick": 100.0, "thorough": 1500.0}
 
@@ -373,7 +373,7 @@ def describe(case):
 def _hyp_strategy(ctx):
     from hypothesis import strategies as st
 
-    lo = ctx.scale(6, 8)
+    lo = ctx.scale(6, 9)
     return st.one_of(G.overload_cases(), G.property_cases(), G.big_sig_cases(lo, ctx.scale(3, 4)))
 
 
@@ -399,8 +399,8 @@ def _ann_masks(ctx, m: dict, index: int, all_masks_upto: int) -> list[int]:
 
 def run_shard(ctx) -> None:
     S.selfcheck_pools()
-    max_params = ctx.scale(5, 7)
-    all_masks_upto = ctx.scale(5, 6)
+    max_params = ctx.scale(5, 8)
+    all_masks_upto = ctx.scale(5, 7)
     shapes = S.all_shapes(max_params)
     if ctx.shard == 0:
         ctx.res.extra["enumerated_shapes"] = len(shapes)
@@ -428,4 +428,4 @@ def run_shard(ctx) -> None:
                 ctx.case(1 if nt else None, ["sig:" + r, *(feats if r == "def" else ())], sample, enumerated=True)
             for f in fails:
                 ctx.fail(f, m)
-    ctx.run_hypothesis(_hyp_strategy(ctx), check_case, ctx.scale(1200, 25000), describe=describe, salt="groups")
+    ctx.run_hypothesis(_hyp_strategy(ctx), check_case, ctx.scale(3000, 40000), describe=describe, salt="groups")
